@@ -68,13 +68,13 @@ theorem elabOps_ops {c : Nat} {f : Func} {m : Module} (ops : List Op) :
       have hlp : labelPos c acc.length = false := by simpa using hpos
       have hmem : n ∈ f.regNames := by simpa using hkind.2
       exact plain _ rfl rfl (fun rest => by
-        simp [elabOps, ropOfOp, normOp, elabName, hli, hlp, hf, hmem])
+        simp [elabOps, ropOfOp, normOp, elabName, headCode, hlp, hf, hmem])
     | ref n =>
       simp only [Bool.and_eq_true, Bool.not_eq_true'] at hkind
       have hlp : labelPos c acc.length = false := by simpa using hpos
       have hnm : n ∉ f.regNames := by simpa using hkind.1.2
       exact plain _ rfl rfl (fun rest => by
-        simp [elabOps, ropOfOp, normOp, elabName, hli, hlp, hf, hnm, hkind.2, hcur])
+        simp [elabOps, ropOfOp, normOp, elabName, headCode, hlp, hf, hnm, hkind.2, hcur])
     | mem mm =>
       simp only [memOK, Bool.and_eq_true] at hkind
       obtain ⟨⟨⟨hb, hi⟩, _⟩, _⟩ := hkind
@@ -108,7 +108,7 @@ theorem elabOps_ops {c : Nat} {f : Func} {m : Module} (ops : List Op) :
         (hsame.2.2.2.1.trans hf) (hsame.2.1.trans hcur) (hsame.2.2.2.2.trans hli) hk1 hinv1 hn1
         (by rw [hlen, hsame.2.2.1]; exact hrest) hs2
       refine ⟨st', ?_, SameBut.trans hsame h2, h3, h4, h5⟩
-      simp only [List.map_cons, ropOfOp, elabOps, elabName, hli, hlp, hc1, Except.map, normOp] at h1 ⊢
+      simp only [List.map_cons, ropOfOp, elabOps, elabName, headCode, hlp, hc1, Except.map, normOp] at h1 ⊢
       simpa [List.append_assoc] using h1
 
 
